@@ -79,9 +79,20 @@ def run_one(args):
         os.makedirs(os.path.join(d, "CPP"))
         shutil.copytree("/repo/CPP/Clipper2Lib", os.path.join(d, "CPP", "Clipper2Lib"))
         shutil.copy("/repo/CPP/CMakeLists.txt", os.path.join(d, "CPP", "CMakeLists.txt"))
-        p = os.path.join(d, rel)
-        s = open(p).read()
-        if old is None and new and "->" in new:
+        if rel == "@patch":
+            # a unified diff against the repository root (committed under /verif/benign/)
+            r = subprocess.run(["patch", "-p1", "-s", "-d", d, "-i", old], stdout=subprocess.PIPE, stderr=subprocess.STDOUT)
+            if r.returncode != 0:
+                return name, {"*": "patch does not apply: " + r.stdout.decode()[:200]}
+            rel = "CPP/Clipper2Lib/src/clipper.engine.cpp"
+            p = os.path.join(d, rel)
+            s = open(p).read()
+        else:
+            p = os.path.join(d, rel)
+            s = open(p).read()
+        if rel == "CPP/Clipper2Lib/src/clipper.engine.cpp" and old is not None and old.endswith(".diff"):
+            pass
+        elif old is None and new and "->" in new:
             a, b = new.split("->")
             if a not in s:
                 return name, {"*": "anchor missing"}
@@ -119,9 +130,24 @@ def run_one(args):
         shutil.rmtree(d, ignore_errors=True)
 
 
+def patch_edits():
+    """Behaviour-preserving patches kept as files: /verif/benign/<name>.diff (written by independent sub-agents, confirmed by me)."""
+    out = []
+    bd = os.path.join(VERIF, "benign")
+    if os.path.isdir(bd):
+        for fn in sorted(os.listdir(bd)):
+            if fn.endswith(".diff"):
+                out.append(("patch " + fn[:-5], "@patch", os.path.join(bd, fn), None))
+    return out
+
+
 def main():
     sel = sys.argv[1:]
-    edits = [e for e in EDITS if not sel or any(s in e[0] for s in sel)]
+    extra = []
+    if sel and sel[0] == "--patch":
+        extra = [("patch " + os.path.basename(f), "@patch", f, None) for f in sel[1:]]
+        sel = ["\0"]
+    edits = [e for e in EDITS + patch_edits() if not sel or any(s in e[0] for s in sel)] + extra
     with ThreadPoolExecutor(max_workers=7) as ex:
         for name, res in ex.map(run_one, edits):
             bad = {k: v for k, v in res.items() if v != "ok"}
